@@ -5,24 +5,28 @@
 From SV Require Import Model.ProfileTables.
 From Coq Require Import NArith.
 
-Definition fkey := (nat * option (nat * N * option nat))%type.   (* name string index; Native (used-lib index, relative address, native symbol) or Label *)
-Definition funckey := (nat * option nat)%type.                 (* name string index, used-lib index *)
+(* frame key (frame_table.rs InternalFrame, with subcategory and flags fixed): name string index, Native (used-lib index, relative address,
+   native symbol, inline depth) or Label, file path string index, line, column *)
+Record natinfo := mkNI { ni_lib : nat; ni_rel : N; ni_ns : option nat; ni_depth : N }.
+Record fkey := mkFK { fk_name : nat; fk_native : option natinfo; fk_file : option nat; fk_line : option N; fk_col : option N }.
+(* func key (func_table.rs FuncKey): name string index, file path string index, used-lib index *)
+Record funckey := mkFu { fu_name : nat; fu_file : option nat; fu_lib : option nat }.
 
+Definition onat_eqb (a b : option nat) : bool := match a, b with None, None => true | Some x, Some y => Nat.eqb x y | _, _ => false end.
+Definition oN_eqb (a b : option N) : bool := match a, b with None, None => true | Some x, Some y => N.eqb x y | _, _ => false end.
+Definition natinfo_eqb (a b : natinfo) : bool :=
+  Nat.eqb (ni_lib a) (ni_lib b) && N.eqb (ni_rel a) (ni_rel b) && onat_eqb (ni_ns a) (ni_ns b) && N.eqb (ni_depth a) (ni_depth b).
 Definition fkey_eqb (a b : fkey) : bool :=
-  Nat.eqb (fst a) (fst b) &&
-  match snd a, snd b with
-  | None, None => true
-  | Some (l, r, ns), Some (l', r', ns') =>
-      Nat.eqb l l' && N.eqb r r' && match ns, ns' with None, None => true | Some x, Some y => Nat.eqb x y | _, _ => false end
-  | _, _ => false
-  end.
+  Nat.eqb (fk_name a) (fk_name b) &&
+  match fk_native a, fk_native b with None, None => true | Some x, Some y => natinfo_eqb x y | _, _ => false end &&
+  onat_eqb (fk_file a) (fk_file b) && oN_eqb (fk_line a) (fk_line b) && oN_eqb (fk_col a) (fk_col b).
 Definition funckey_eqb (a b : funckey) : bool :=
-  Nat.eqb (fst a) (fst b) && match snd a, snd b with None, None => true | Some x, Some y => Nat.eqb x y | _, _ => false end.
+  Nat.eqb (fu_name a) (fu_name b) && onat_eqb (fu_file a) (fu_file b) && onat_eqb (fu_lib a) (fu_lib b).
 
 Record ttab := mkTT {
   tt_strings : list N;                         (* stringArray: content ids in order of first use *)
   tt_res_lib : list nat; tt_res_name : list nat;                     (* resourceTable columns *)
-  tt_funcs : list funckey; tt_func_res : list (option nat);          (* funcTable: key set (name, lib) and the resource column *)
+  tt_funcs : list funckey; tt_func_res : list (option nat);          (* funcTable: key set (name, file, lib) and the resource column *)
   tt_frames : list fkey; tt_frame_func : list nat;                   (* frameTable: key set and the func column *)
   tt_ns : list (nat * N); tt_ns_name : list nat }.                   (* nativeSymbols: key set (lib, symbol address) and the name column *)
 Definition tt_empty : ttab := mkTT [] [] [] [] [] [] [] [] [].
@@ -44,7 +48,7 @@ Definition func_for (t : ttab) (k : funckey) (libname : N) : nat * ttab :=
   match index_of funckey_eqb k (tt_funcs t) with
   | Some i => (i, t)
   | None =>
-      let '(res, t1) := match snd k with
+      let '(res, t1) := match fu_lib k with
                         | Some lib => let '(r, t') := resource_for_lib t lib libname in (Some r, t')
                         | None => (None, t)
                         end in
@@ -55,7 +59,7 @@ Definition frame_for (t : ttab) (k : fkey) (libname : N) : nat * ttab :=
   match index_of fkey_eqb k (tt_frames t) with
   | Some i => (i, t)
   | None =>
-      let '(f, t1) := func_for t (fst k, option_map (fun x => fst (fst x)) (snd k)) libname in
+      let '(f, t1) := func_for t (mkFu (fk_name k) (fk_file k) (option_map ni_lib (fk_native k))) libname in
       (length (tt_frames t1), mkTT (tt_strings t1) (tt_res_lib t1) (tt_res_name t1) (tt_funcs t1) (tt_func_res t1) (tt_frames t1 ++ [k]) (tt_frame_func t1 ++ [f]) (tt_ns t1) (tt_ns_name t1))
   end.
 
@@ -74,17 +78,47 @@ Definition native_symbol_for (t : ttab) (lib : nat) (addr : N) (symname : N) : n
 Inductive freq :=
 | FString (s : N)                                  (* a string converted for this thread (marker name / text) *)
 | FLabel (name : N)                                (* handle_for_frame_with_label *)
+| FLabelLoc (name : N) (file : option N) (line col : option N)      (* handle_for_frame_with_label_and_source_location *)
 | FNative (lib : nat) (rel : N) (hexname libname : N)    (* handle_for_frame_with_address resolved into a used library without symbol table hit *)
-| FNativeSym (lib : nat) (rel symaddr : N) (symname libname : N).   (* ... inside a symbol of the library's symbol table *)
+| FNativeSym (lib : nat) (rel symaddr : N) (symname libname : N)    (* ... inside a symbol of the library's symbol table *)
+| FNs (lib : nat) (symaddr : N) (symname : N)      (* handle_for_native_symbol *)
+| FSymbolicated (addr : option (nat * N)) (hexname : N) (nslib : nat) (nsaddr : N)   (* handle_for_frame_with_address_and_symbol: the address resolves *)
+                (name file : option N) (line col : option N) (depth : N) (libname : N).   (* into (used lib, rel) or nowhere; the native symbol handle's key *)
+
+Definition intern_opt (t : ttab) (s : option N) : option nat * ttab :=
+  match s with Some x => let '(i, t1) := intern_string t x in (Some i, t1) | None => (None, t) end.
 
 Definition do_req (t : ttab) (r : freq) : ttab :=
   match r with
   | FString s => snd (intern_string t s)
-  | FLabel name => let '(n, t1) := intern_string t name in snd (frame_for t1 (n, None) 0%N)
-  | FNative lib rel hexname libname => let '(n, t1) := intern_string t hexname in snd (frame_for t1 (n, Some (lib, rel, None)) libname)
+  | FLabel name => let '(n, t1) := intern_string t name in snd (frame_for t1 (mkFK n None None None None) 0%N)
+  | FLabelLoc name file line col =>
+      let '(n, t1) := intern_string t name in
+      let '(f, t2) := intern_opt t1 file in
+      snd (frame_for t2 (mkFK n None f line col) 0%N)
+  | FNative lib rel hexname libname =>
+      let '(n, t1) := intern_string t hexname in snd (frame_for t1 (mkFK n (Some (mkNI lib rel None 0%N)) None None None) libname)
   | FNativeSym lib rel symaddr symname libname =>
       let '(ns, t1) := native_symbol_for t lib symaddr symname in
-      snd (frame_for t1 (nth ns (tt_ns_name t1) 0, Some (lib, rel, Some ns)) libname)
+      snd (frame_for t1 (mkFK (nth ns (tt_ns_name t1) 0) (Some (mkNI lib rel (Some ns) 0%N)) None None None) libname)
+  | FNs lib symaddr symname => snd (native_symbol_for t lib symaddr symname)
+  | FSymbolicated addr hexname nslib nsaddr name file line col depth libname =>
+      match index_of ns_key_eqb (nslib, nsaddr) (tt_ns t) with
+      | None => t                                   (* no such native symbol handle: not a call the API allows *)
+      | Some ns =>
+          let '(nm, t1) := intern_opt t name in
+          let '(variant, n, t2) :=
+            match addr with
+            | None => match nm with
+                      | Some i => (None, i, t1)
+                      | None => let '(i, t') := intern_string t1 hexname in (None, i, t')
+                      end
+            | Some (lib, rel) =>
+                (Some (mkNI lib rel (Some ns) depth), match nm with Some i => i | None => nth ns (tt_ns_name t1) 0 end, t1)
+            end in
+          let '(f, t3) := intern_opt t2 file in
+          snd (frame_for t3 (mkFK n variant f line col) libname)
+      end
   end.
 Definition run_reqs (rs : list freq) : ttab := fold_left do_req rs tt_empty.
 
@@ -96,12 +130,16 @@ Record tt_wf (nlibs : nat) (t : ttab) : Prop := mkWF {
   w_ns_len : length (tt_ns_name t) = length (tt_ns t);
   w_res_lib : forall l, In l (tt_res_lib t) -> l < nlibs;
   w_res_name : forall n, In n (tt_res_name t) -> n < length (tt_strings t);
-  w_func_name : forall k, In k (tt_funcs t) -> fst k < length (tt_strings t);
+  w_func_name : forall k, In k (tt_funcs t) -> fu_name k < length (tt_strings t);
+  w_func_file : forall k f, In k (tt_funcs t) -> fu_file k = Some f -> f < length (tt_strings t);
   w_func_res : forall r, In (Some r) (tt_func_res t) -> r < length (tt_res_lib t);
-  w_frame_name : forall k, In k (tt_frames t) -> fst k < length (tt_strings t);
+  w_frame_name : forall k, In k (tt_frames t) -> fk_name k < length (tt_strings t);
   w_frame_func : forall f, In f (tt_frame_func t) -> f < length (tt_funcs t);
   w_ns_lib : forall k, In k (tt_ns t) -> fst k < nlibs;
   w_ns_name : forall n, In n (tt_ns_name t) -> n < length (tt_strings t);
-  w_frame_ns : forall n l r i, In (n, Some (l, r, Some i)) (tt_frames t) -> i < length (tt_ns t) }.
+  w_frame_ns : forall k ni i, In k (tt_frames t) -> fk_native k = Some ni -> ni_ns ni = Some i -> i < length (tt_ns t) }.
 Definition req_ok (nlibs : nat) (r : freq) : Prop :=
-  match r with FNative lib _ _ _ => lib < nlibs | FNativeSym lib _ _ _ _ => lib < nlibs | _ => True end.
+  match r with
+  | FNative lib _ _ _ => lib < nlibs | FNativeSym lib _ _ _ _ => lib < nlibs | FNs lib _ _ => lib < nlibs
+  | FSymbolicated (Some (lib, _)) _ _ _ _ _ _ _ _ _ => lib < nlibs
+  | _ => True end.
